@@ -158,6 +158,16 @@ fn check_text(t: &mut Tally, text: &str) {
         }
         (Err(causes), Err(e)) => {
             t.nontrivial += 1;
+            // the rendered message must not name another variable than the one the error is about
+            // (it may name none): upper-case words of the message that are supported variable names
+            if let Some(Cause::Incomplete(i)) = real_cause(e) {
+                let msg = e.to_string();
+                let named: Vec<&str> = msg.split(|c: char| !(c.is_ascii_uppercase() || c == '_')).filter(|w| ms::var_index(w).is_some()).collect();
+                if !named.is_empty() && !named.contains(&VARS[i].0) {
+                    t.violation(Violation::new("text", case(), json!(format!("a message about {}", VARS[i].0)), json!(msg), "the error's message names a different variable than the one that is missing"));
+                    return;
+                }
+            }
             match real_cause(e) {
                 Some(c) if causes.contains(&c) => {
                     t.outcome(match c {
